@@ -4,6 +4,7 @@ import GqlProofs.CostWeight
 import GqlProofs.OverlapCost
 import GqlProofs.GraphCost
 import GqlProofs.VisitorCount
+import GqlProofs.PossibleCost
 import Props.C14
 /-! # C19 — Planning work is polynomial in document size (plan sites)
 
@@ -466,6 +467,26 @@ theorem list_sizes_le_docNodes (s : Schema) (d : Document) :
     simp only [docNodes_split]; omega
 
 end GqlModel.Validate.Graph
+
+/-! ## Possible-type tables: planning asks for none, validation for at most two per visited selection
+
+`Schema.PossibleTypes(abstract)` hands out the table of object types of an interface / union (verif site
+`VerifSitePossibleTypesEnumerated` adds its length). PLANNING decides type conditions by `Schema.IsPossibleType`, a lookup in
+the map built with the schema: the cost model consults `Ctx.applies` once per fragment and its counters do not depend on
+the implementers (`plan_cost_indep_of_possible_types`); the harness asserts that EVERY step counter of `PlanQuery` and of the
+lazily planned sub-selections of `ExecutePlan`, the new site included, is exactly equal for 4 … 20000 implementers.
+VALIDATION legitimately enumerates (PossibleFragmentSpreads' `doTypesOverlap`, FieldsOnCorrectType's suggestions): -/
+namespace GqlModel.Validate
+
+/-- T2 `validation_possible_type_tables`: one `ValidateDocument` asks for possible-type tables with at most
+`2 · maxPossible · (fields + spreads + inline fragments visited)` entries in total — polynomial in document size ×
+possible types, NOT independent of the number of implementers (and the harness compares the real counter with
+`ptValidation` exactly). -/
+theorem validation_possible_type_tables (s : Schema) (d : Document) :
+    ptValidation s d ≤ 2 * maxPossible s * nSelectionItems s d :=
+  ptValidation_le s d
+
+end GqlModel.Validate
 
 /-! ## Validation: the visitor-driven local rules — one traversal, a bounded number of callbacks
 
